@@ -1,4 +1,4 @@
-"""C05 - JSON parser total and standard-conformant."""
+"""C05 - JSON parser is total and standard-conformant; strict mode = no extensions."""
 
 _DEPS = ("harness/c04/tree.hh", "harness/c05/refjson.hh", "harness/c05/oracle.hh")
 
@@ -9,10 +9,42 @@ PROP = dict(
              shards_quick=8, shards_thorough=16, timeout_quick=400, timeout_thorough=1500),
         dict(name="c05_fuzz", kind="fuzz", src="fuzz/c05_json.cc", corpus="corpus/c05", dict="fuzz/c05_json.dict", max_len=4096,
              deps=_DEPS + ("fuzz/c05_json.dict",),
-             seconds_quick=20, seconds_thorough=600, workers_quick=8, workers_thorough=16, replay_ext="fuzz"),
+             seconds_quick=20, seconds_thorough=480, workers_quick=8, workers_thorough=16, replay_ext="fuzz"),
+        dict(name="c05_fuzz_empty", kind="fuzz", src="fuzz/c05_json.cc", corpus="corpus/c05", empty_corpus=True, max_len=512,
+             deps=_DEPS, thorough_only=True, seconds_thorough=90, workers_thorough=8, replay_ext="fuzz"),
+        dict(name="c05_py", kind="pydriver", driver="oracle/c05_json_py.py", shim="shim/c05_shim.cc",
+             deps=_DEPS + ("shim/shim.hh", "oracle/c04_tree.py", "oracle/hyp_common.py"),
+             shards_quick=8, shards_thorough=16, timeout_quick=400, timeout_thorough=1500),
     ],
-    rule="tbd",
-    assumptions=[],
-    min_evaluations_quick=1000,
-    technique="tbd", level_text="tbd", level_note="tbd",
+    rule=("Evaluations count texts given to the parser (each text goes through the three entry points in default and strict mode). "
+          "(a) libFuzzer: arbitrary bytes (seed corpus = JSONTest literals, grammar samples, extension samples; thorough also from an "
+          "empty corpus); non-trivial = the first non-blank byte opens a container or a string; distinct by text hash. (b) grammar "
+          "documents built by construction (rapidcheck in C++, Hypothesis in Python): arbitrary inter-token whitespace, all escapes incl. "
+          "\\/ and \\u0000-\\u00ff in both hex cases, raw ASCII 0x20-0x7F, number forms -0, 0.5, 1e5, 1E+2, 5e-1, 1.25E-3, integers to "
+          "the int64 boundaries, integer parts of 1..25 digits for non-integers, exponents keeping the value within 1e-290..1e290, unique "
+          "keys, empty containers anywhere, nesting up to 500; each with a generated suffix (reader extent), trailing whitespace and "
+          "trailing garbage; plus documents with exactly one injected extension (trailing comma, hex integer, n/t/f, // comment); "
+          "non-trivial = nesting >= 2 and a fraction/exponent numeral or an escape (every extension case counts). (c) every proper prefix "
+          "and every single-byte delete/replace/insert over 29 structural bytes of 45 fixed documents (complete) and of generated documents; "
+          "non-trivial = the base document is a container of >= 6 bytes. Distinct = distinct case encodings (hash)."),
+    assumptions=["bracket nesting <= 500: inputs with more than 500 opening brackets are skipped and counted",
+                 "numerals with an exponent of more than 3 digits are skipped and counted (outside the stated domain; they only make the scanner loop up to 2^31 times)",
+                 "a document counts as 'standard-compliant inside the domain' when the reference reader accepts it and it has unique keys, no raw byte >= 0x80 in strings, "
+                 "\\u escapes <= U+00FF, plain integers within int64, non-integers that are zero or within 1e-300..1e300 in magnitude, and at most 40 digits per numeral",
+                 "non-integer numbers are compared to 1e-9 relative (phosg's scanner is not correctly rounded), integers exactly; an integer-valued numeral with an exponent may come back as int or float",
+                 "rejection = JSON::parse_error or std::out_of_range (both documented); which of the two is not asserted",
+                 "non-standard texts that are not one of the four documented extensions (e.g. '-', '007', '1.', \\x41, raw control bytes in strings) are only required to be handled without crash or foreign exception type"],
+    min_evaluations_quick=100000,
+    engine="libFuzzer + Hypothesis (Python json.loads) + rapidcheck + exhaustive enumerators",
+    technique=("differential and fault-exploration testing of the parser: coverage-guided byte fuzzing with the oracle inside the target, "
+               "grammar-based generation of standard documents compared against Python's json.loads and against an independent RFC 8259 "
+               "reader written for the harness (itself cross-checked against json.loads on every generated text and on every single-byte "
+               "edit), one-extension injection for strict mode, and exhaustive prefix / single-edit enumeration; all on an ASan+UBSan "
+               "build with exactly sized input buffers"),
+    level_text=("Exploration: about 10^6 texts per quick run (10^8 in the thorough tier) are pushed through all three entry points in both "
+                "modes; any text that makes the parser crash, read outside its input, throw an undocumented exception type, disagree "
+                "between entry points, mis-value a standard document, accept an extension in strict mode or mis-report the extent of a "
+                "value is reported with a replay file. It does not prove totality for all byte strings."),
+    level_note=("Trusts CPython's json module and the harness reader as references; the 1e-9 tolerance, the 3-digit exponent cut and the "
+                "1e-300..1e300 range are deliberate limits (DESIGN.md section 6)."),
 )
